@@ -343,13 +343,31 @@ fn render_mut(q: &Query, text: &str) -> Option<String> {
     }
 }
 
-/// `ql q <hex text> <bad regexes>`: `Query::parse` on the text (structure, remainder), and `to_string` of what it parsed
-fn q_exec(text: &str) -> String {
-    match guarded(std::panic::AssertUnwindSafe(|| Query::parse(text).map(|(q, r)| (if q.querytype() == QueryType::Select { render_q(&q) } else { render_mut(&q, text) }, r.to_string(), if q.querytype() == QueryType::Select { q.to_string().ok() } else { None })).map_err(|e| format!("{}", e)))) {
-        Err(m) => format!("panic:{}", m.chars().take(60).collect::<String>()),
-        Ok(Err(_)) => "err".into(),
-        Ok(Ok((None, _, _))) => "unmodelled".into(),
-        Ok(Ok((Some(r), rest, printed))) => format!("ok | {} | {} | {}", r, hex(&rest), match (&printed, r.contains("var ")) { (Some(p), false) => hex(p), _ => "~".into() }),
+/// is every float of an ADD query's assignments written in the text in the form the code prints (`{}`, and `.0` when
+/// that has no period)? The model prints the literal it read: printed texts are compared only then.
+fn floats_canonical(q: &Query, text: &str) -> bool {
+    q.assignments().all(|a| match a {
+        Assignment::Data { value: DataValue::Float(f), .. } => {
+            let mut p = format!("{}", f);
+            if !p.contains('.') && f.is_finite() { p += ".0"; }
+            text.split(|c: char| c.is_whitespace() || c == ';').any(|t| t == p) && !text.split(|c: char| c.is_whitespace() || c == ';').any(|t| t != p && t.contains('.') && t.parse::<f64>().ok() == Some(*f))
+        }
+        _ => true,
+    })
+}
+
+/// `ql q <hex text> <bad regexes> [noprint]`: `Query::parse` on the text (structure, remainder), and `to_string` of what it
+/// parsed; the flag says whether the printed text is compared
+fn q_exec(text: &str) -> (String, bool) {
+    match guarded(std::panic::AssertUnwindSafe(|| Query::parse(text).map(|(q, r)| {
+        let select = q.querytype() == QueryType::Select;
+        let with_print = select || floats_canonical(&q, text);
+        (if select { render_q(&q) } else { render_mut(&q, text) }, r.to_string(), if with_print { q.to_string().ok() } else { None }, with_print)
+    }).map_err(|e| format!("{}", e)))) {
+        Err(m) => (format!("panic:{}", m.chars().take(60).collect::<String>()), true),
+        Ok(Err(_)) => ("err".into(), true),
+        Ok(Ok((None, _, _, _))) => ("unmodelled".into(), true),
+        Ok(Ok((Some(r), rest, printed, with_print))) => (format!("ok | {} | {} | {}", r, hex(&rest), match (&printed, r.contains("var ")) { (Some(p), false) => hex(p), _ => "~".into() }), with_print),
     }
 }
 
@@ -358,12 +376,16 @@ fn q_exec(text: &str) -> String {
 fn model_safe(text: &str) -> Option<String> {
     let quotes: Vec<usize> = text.char_indices().filter(|(_, c)| *c == '"').map(|(i, _)| i).collect();
     if quotes.len() > 14 { return None; }
+    // the WITH clause of an ADD query (what precedes the block of sub-queries): a float there is compared by its literal
+    // (render_mut), whatever its form
+    let with_clause = if text.trim_start().starts_with("ADD") { text.find('{').unwrap_or(text.len()) } else { 0 };
     for tok in text.split(|c: char| c.is_whitespace() || c == ';' || c == '|' || c == ']' || c == '"') {
         if tok.is_empty() { continue; }
+        let at = tok.as_ptr() as usize - text.as_ptr() as usize;
         let numeric_shape = tok.chars().enumerate().all(|(i, c)| c.is_ascii_digit() || c == '.' || (c == '-' && i == 0));
         if numeric_shape && tok.contains('.') {
             // a float literal: the model keeps the literal, the implementation prints the number
-            match tok.parse::<f64>() { Ok(f) if format!("{:?}", f) == tok => {} Ok(_) => return None, Err(_) => {} }
+            match tok.parse::<f64>() { Ok(f) if format!("{:?}", f) == tok || (at < with_clause && f.is_finite()) => {} Ok(_) => return None, Err(_) => {} }
         }
         let b = tok.as_bytes();
         if b.len() >= 5 && b[..4].iter().all(|c| c.is_ascii_digit()) && b[4] == b'-' && !["2024-03-01T12:30:00+01:00", "2024-01-01T00:00:00+00:00"].contains(&tok) { return None; }
@@ -380,10 +402,11 @@ fn model_safe(text: &str) -> Option<String> {
 pub fn query_model_stream(rep: &mut Report, g: &mut QGen, n: usize) {
     let mut send = |rep: &mut Report, text: &str, class: &str| {
         let bad = match model_safe(text) { Some(b) => b, None => { rep.count("q:not-sent"); return; } };
-        let a = q_exec(text);
+        let (a, with_print) = q_exec(text);
         rep.count(&format!("q:{}:{}", class, a.split(' ').next().unwrap_or("?")));
+        if !with_print { rep.count("q:printed-text-not-compared(float literal not in printed form)"); }
         if class == "add" && a == "err" && std::env::var("VERIF_DEBUG").is_ok() { eprintln!("ADD-ERR {:?} -> {:?}", text, Query::parse(text).map(|_| ()).map_err(|e| format!("{}", e))); }
-        let line = format!("ql q {} {}", hex(text), bad);
+        let line = format!("ql q {} {}{}", hex(text), bad, if with_print { "" } else { " noprint" });
         rep.model_case(vec![line], vec![a], "query");
     };
     for _ in 0..n {
@@ -400,7 +423,7 @@ pub fn query_model_stream(rep: &mut Report, g: &mut QGen, n: usize) {
         for _ in 0..g.rng.below(5) {
             asgs.push(match if g.rng.chance(88) { *g.rng.pick(&[0usize, 1, 2, 3, 4, 6, 10, 11, 12]) } else { g.rng.below(9) } {
                 10 => format!("ID {}", *g.rng.pick(&["\"new\"", "new"])),
-                11 => format!("DATA \"s\" \"k\" {}", *g.rng.pick(&["5", "-3", "2.5", "\"v\"", "v", "true", "false", "null"])),
+                11 => format!("DATA \"s\" \"k\" {}", *g.rng.pick(&["5", "-3", "2.5", "\"v\"", "v", "true", "false", "null", "0.00001", "-0.0000002", "123456789012345678901.5", "10000000000000000.0", "3.00", "\"two words\""])),
                 12 => format!("TARGET ?a OFFSET {} {}", *g.rng.pick(&["0", "1", "-3", "WHOLE"]), *g.rng.pick(&["5", "-1", "-0", ""])),
                 0 => format!("ID {}", *g.rng.pick(&["\"new\"", "new", "\"a b\"", "\"\""])),
                 1 => format!("DATA \"s\" \"k\" {}", *g.rng.pick(&["5", "-3", "2.5", "\"v\"", "v", "true", "false", "null", "a|b", "2024-01-01T00:00:00+00:00", "9999999999999999999999", ""])),
@@ -419,9 +442,28 @@ pub fn query_model_stream(rep: &mut Report, g: &mut QGen, n: usize) {
         let with = if asgs.is_empty() && body.is_empty() { "" } else { with };
         let add = format!("ADD {} {}{}{}{}{{ {} }}", *g.rng.pick(&["ANNOTATION", "ANNOTATION", "ANNOTATION", "ANNOTATION", "annotation", "DATA"]), name, with, body, *g.rng.pick(&[" ", "", "\n"]), sub);
         send(rep, &add, "add");
+        // what the implementation prints for it (the text the fixpoint is about)
+        if let Ok((q, _)) = Query::parse(&add) { if let Ok(t) = q.to_string() { send(rep, &t, "add-printed"); } }
         let m = g.mutate(&add); send(rep, &m, "add-damaged");
+        // and one within the grammar: any number of assignments of every kind
+        {
+            let n = g.rng.below(6);
+            let a: Vec<String> = (0..n).map(|_| match g.rng.below(7) {
+                0 => format!("ID {};", g.q()),
+                1 | 2 => format!("DATA {} {} {};", g.q(), g.q(), *g.rng.pick(&["5", "-3", "2.5", "\"v\"", "true", "false", "0.00001", "-0.0000002", "123456789012345678901.5", "10000000000000000.0", "3.00", "\"two words\"", "0", "-0.5"])),
+                3 => format!("DATA {} {};", g.q(), g.q()),
+                4 => format!("TARGET ?{} OFFSET {} {};", *g.rng.pick(&["a", "x"]), *g.rng.pick(&["0", "1", "-3"]), *g.rng.pick(&["5", "-1", "-0"])),
+                5 => format!("TARGET ?{};", *g.rng.pick(&["a", "x", "b"])),
+                _ => format!("{} ;", *g.rng.pick(&["COMPOSITE", "MULTI", "DIRECTIONAL"])),
+            }).collect();
+            let ws = *g.rng.pick(&[" ", "\n", "\n\t", "  "]);
+            let good = format!("ADD ANNOTATION{}{}{}{}", *g.rng.pick(&[" ?n", "", " ?new"]), if n > 0 { format!(" WITH{}{}", ws, a.join(ws)) } else { String::new() }, ws, if g.rng.chance(70) { format!("{{ {} }}", sub) } else { String::new() });
+            send(rep, &good, "add-wellformed");
+            if let Ok((q, _)) = Query::parse(&good) { if let Ok(t) = q.to_string() { send(rep, &t, "add-wellformed-printed"); let m = g.mutate(&t); send(rep, &m, "add-printed-damaged"); } }
+        }
         let del = format!("DELETE {} {}{}{{ {} }}", *g.rng.pick(&["ANNOTATION", "ANNOTATION", "annotation", "TEXT"]), name, *g.rng.pick(&["", " ", "\n"]), sub);
         send(rep, &del, "delete");
+        if let Ok((q, _)) = Query::parse(&del) { if let Ok(t) = q.to_string() { send(rep, &t, "delete-printed"); } }
         let m = g.mutate(&del); send(rep, &m, "delete-damaged");
     }
 }
@@ -481,7 +523,7 @@ pub fn exec_line(line: &str) -> String {
     let t: Vec<&str> = line.split_whitespace().collect();
     match t.as_slice() {
         ["ql", "cn", h, _] => cn_exec(&crate::fam::store::unhex_s(h)),
-        ["ql", "q", h, _] => q_exec(&crate::fam::store::unhex_s(h)),
+        ["ql", "q", h, _] | ["ql", "q", h, _, "noprint"] => q_exec(&crate::fam::store::unhex_s(h)).0,
         ["ql", "arg", ..] | ["ql", "type", ..] | ["ql", "op", ..] => lex_exec(line),
         ["ql", "parse", h] => {
             let s = crate::fam::store::unhex_s(h);
